@@ -72,6 +72,8 @@ mutual
     `EMIT %tag t` -/
     | ADDRESS | IMPLICIT_ACCOUNT | CONTRACT (t : Ty) (ep : List Nat) | SELF (ep : List Nat) (t : Ty)
     | TRANSFER_TOKENS | SET_DELEGATE | EMIT (tag : List Nat) (t : Ty)
+    /- phase B (first half): serialization of the plain data classes -/
+    | PACK
 end
 
 instance : Inhabited Val := ⟨.unit⟩
